@@ -255,21 +255,30 @@ func c10Input(c *ctx, i int, valid []string) (class string, src string) {
 		}
 		sb.WriteString("  o[1] = acc;")
 		return "compaction-stress", pre + wrap(sb.String())
-	case 15: // a chain of let bindings each using the previous one twice (shared sub-expressions): work that doubles
-		// per binding is still fast at 16 and takes seconds at 24; the long chains come in one spelling only
-		n := []int{8, 12, 16, 20, 22, 24}[c.rng.Intn(6)]
+	case 15: // a chain of let bindings each using the previous one twice (shared sub-expressions): any stage whose work
+		// doubles per binding (found: type resolution, the GLSL writer's constant search — both repaired) needs hours at 40;
+		// every seed / operator / second-operand shape at every length (the second operand may also be a *different* earlier
+		// binding or a unary / converted use of the previous one)
+		n := []int{8, 16, 24, 40, 64, 200}[c.rng.Intn(6)]
 		var sb strings.Builder
-		seed := []string{"o[0]", "f32(o[0])", "vec2<f32>(f32(o[0]))"}[c.rng.Intn(3)]
-		op := []string{"+", "*", "-", "&"}[c.rng.Intn(4)]
-		if n >= 20 {
-			seed, op = "f32(o[0])", "+"
-		}
-		if seed != "o[0]" && op == "&" {
+		seed := []string{"o[0]", "f32(o[0])", "vec2<f32>(f32(o[0]))", "i32(o[0])"}[c.rng.Intn(4)]
+		op := []string{"+", "*", "-", "&", "|", "/"}[c.rng.Intn(6)]
+		if (seed == "f32(o[0])" || strings.HasPrefix(seed, "vec2")) && (op == "&" || op == "|") {
 			op = "+"
 		}
+		shape := c.rng.Intn(4)
 		fmt.Fprintf(&sb, "  let a0 = %s %s %s;\n", seed, op, seed)
 		for j := 1; j <= n; j++ {
-			fmt.Fprintf(&sb, "  let a%d = a%d %s a%d;\n", j, j-1, op, j-1)
+			switch {
+			case shape == 1 && j >= 2:
+				fmt.Fprintf(&sb, "  let a%d = a%d %s a%d;\n", j, j-1, op, j-2)
+			case shape == 2:
+				fmt.Fprintf(&sb, "  let a%d = a%d %s (-a%d);\n", j, j-1, op, j-1)
+			case shape == 3:
+				fmt.Fprintf(&sb, "  let a%d = min(a%d, a%d) %s a%d;\n", j, j-1, j-1, op, j-1)
+			default:
+				fmt.Fprintf(&sb, "  let a%d = a%d %s a%d;\n", j, j-1, op, j-1)
+			}
 		}
 		fmt.Fprintf(&sb, "  o[1] = u32(a%d%s);", n, map[bool]string{true: ".x", false: ""}[strings.HasPrefix(seed, "vec2")])
 		return "shared-let-chain", wrap(sb.String())
